@@ -25,6 +25,21 @@ Theorem C12_reserialise_exact : forall ecok body k rest, bytes_ok body = true ->
 Proof. intros ecok body k rest. apply parse_public_key_exact. reflexivity. Qed.
 Print Assumptions C12_reserialise_exact.
 
+(* octets behind the fields of a key packet (a packet that is longer than its content) change
+   neither the key that is read nor, hence, its fingerprint, key ID and attributes: packet.Read
+   consumes and drops them (F40: they used to be left in the stream as the next packet header) *)
+Theorem C12_trailing_octets_ignored : forall c ecok body k rest x,
+  parse_public_key c ecok body = Ok (k, rest) -> parse_public_key c ecok (body ++ x) = Ok (k, rest ++ x).
+Proof. exact parse_public_key_app. Qed.
+Print Assumptions C12_trailing_octets_ignored.
+
+Theorem C12_key_packet_trailing_octets : forall c P tag body x sub k,
+  ((tag =? 6) || (tag =? 14)) = true ->
+  read_packet c P tag body true = RP (PKey sub false k) ->
+  read_packet c P tag (body ++ x) true = RP (PKey sub false k).
+Proof. exact key_packet_trailing_octets. Qed.
+Print Assumptions C12_key_packet_trailing_octets.
+
 (* the 2-octet length in the hashed form never wraps *)
 Theorem C12_key_body_short : forall c ecok body k rest, bytes_ok body = true ->
   parse_public_key c ecok body = Ok (k, rest) -> lenN (key_body k) < 65536.
@@ -123,13 +138,23 @@ Theorem C12_identity_attributes : forall primary i,
 Proof. exact identity_attrs_exact. Qed.
 Print Assumptions C12_identity_attributes.
 
-(* a subkey shows usage and lifetime of its binding signature, creation date and expiry counted
-   from the creation time in the subkey packet (as `gpg --list-keys` does) *)
+(* a subkey shows usage and lifetime of its binding signature - for a revoked subkey the binding
+   signature that is kept beside the revocation (sk_shown; C11_subkey_shown_bound: it was verified
+   like the one that counts) -, creation date and expiry counted from the creation time in the
+   subkey packet (as `gpg --list-keys` does) *)
+Theorem C12_subkey_shown : forall s,
+  sk_shown fixed s =
+    if sc_type (sk_sig s) =? pgp_sigtype_subkey_revocation
+    then match sk_bind s with Some b => b | None => sk_sig s end
+    else sk_sig s.
+Proof. reflexivity. Qed.
+Print Assumptions C12_subkey_shown.
+
 Theorem C12_subkey_dates : forall s,
   subkey_sig_attrs fixed s =
-    [(bs "Usage", usage_string (sc_flags (sk_sig s)));
+    [(bs "Usage", usage_string (sc_flags (sk_shown fixed s)));
      (bs "Created", fmt_date_utc (pk_created (sk_key s)));
-     (bs "Expires", match sc_keylife (sk_sig s) with
+     (bs "Expires", match sc_keylife (sk_shown fixed s) with
                     | None => bs "never"
                     | Some 0 => bs "never"
                     | Some l => fmt_date_utc (pk_created (sk_key s) + l)
@@ -162,8 +187,8 @@ Print Assumptions C12_F7_refuted.
 
 (* F8: the secret part of an unprotected ECDH key *)
 Theorem C12_F8_refuted : forall P,
-  parse_secret_tail legacy P f8_key false [0; 0; 8; 1; 0; 1] = Panic "impossible" /\
-  parse_secret_tail fixed P f8_key false [0; 0; 8; 1; 0; 1] = Ok tt.
+  parse_secret_tail legacy P f8_key true [0; 0; 8; 1; 0; 1] = Panic "impossible" /\
+  parse_secret_tail fixed P f8_key true [0; 0; 8; 1; 0; 1] = Ok tt.
 Proof. intros P. split; [apply f8_legacy_panics | apply f8_fixed_parses]. Qed.
 Print Assumptions C12_F8_refuted.
 
@@ -206,3 +231,62 @@ Theorem C12_F39_refuted :
     [(bs "Usage", bs "encrypt communications, encrypt storage"); (bs "Created", bs "2020-01-01"); (bs "Expires", bs "2023-06-01")].
 Proof. split; [exact f39_legacy | exact f39_fixed]. Qed.
 Print Assumptions C12_F39_refuted.
+
+(* F41: a subkey bound for encryption on 2020-01-01 with a lifetime of three years and revoked on
+   2020-09-13 was shown with what the revocation signature carries: no usage, never expires *)
+Theorem C12_F41_refuted :
+  subkey_sig_attrs legacy f41_subkey =
+    [(bs "Usage", []); (bs "Created", bs "2020-09-13"); (bs "Expires", bs "never")] /\
+  subkey_sig_attrs fixed f41_subkey =
+    [(bs "Usage", bs "encrypt communications, encrypt storage"); (bs "Created", bs "2020-01-01"); (bs "Expires", bs "2022-12-31")].
+Proof. split; [exact f41_legacy | exact f41_fixed]. Qed.
+Print Assumptions C12_F41_refuted.
+
+(* ---- which of several self-signatures counts (RFC 4880 5.2.3.3: the most recent one) ---- *)
+
+(* over a run of verified binding signatures behind a subkey packet the reader computes the fold
+   sel_sub (shouldReplaceSubkeySig), over verified self-certifications behind a user ID the fold
+   sel_self; a run of signature packets in the packet loop is exactly such a run *)
+Theorem C12_selection_is_a_fold : forall c P primary pid,
+  (forall sigs st k sg bd,
+     Forall (fun s => sc_type (s_core s) = pgp_sigtype_subkey_binding /\ verify_key_sig c P primary k s = Ok tt) sigs ->
+     steps c P primary pid st (MSub k sg bd) sigs =
+       Ok (st, MSub k (sel_sub sg (map s_core sigs)) (sel_sub bd (map s_core sigs)))) /\
+  (forall sigs st name self others,
+     Forall (fun s => is_self_cert pid (s_core s) = true /\ verify_uid_sig c P primary name (s_core s) = Ok tt) sigs ->
+     steps c P primary pid st (MUid name self others) sigs =
+       Ok (st, MUid name (sel_self c self (map s_core sigs)) others)) /\
+  (forall sigs st m st' m' rest, steps c P primary pid st m sigs = Ok (st', m') ->
+     run_packets c P primary pid st m (sig_evs sigs ++ rest) = run_packets c P primary pid st' m' rest).
+Proof.
+  intros c P primary pid. split; [|split].
+  - apply steps_sub.
+  - apply steps_uid.
+  - apply run_packets_steps.
+Qed.
+Print Assumptions C12_selection_is_a_fold.
+
+(* for EVERY list of binding signatures, in whatever order they are stored: the one that counts has
+   the maximal creation time, and it is the first of those that have it *)
+Theorem C12_latest_binding_signature : forall l s, Forall not_rev l -> sel_sub None l = Some s ->
+  exists l1 l2, l = l1 ++ s :: l2 /\
+    (forall x, In x l1 -> sc_created x < sc_created s) /\ (forall x, In x l2 -> sc_created x <= sc_created s).
+Proof. exact sel_sub_latest. Qed.
+Print Assumptions C12_latest_binding_signature.
+
+(* for EVERY list of self-signatures of an identity: the one that counts has the maximal creation
+   time, and it is the last of those that have it (as GnuPG: sig->timestamp >= sigdate) *)
+Theorem C12_latest_self_signature : forall l s, sel_self fixed None l = Some s ->
+  exists l1 l2, l = l1 ++ s :: l2 /\
+    (forall x, In x l1 -> sc_created x <= sc_created s) /\ (forall x, In x l2 -> sc_created x < sc_created s).
+Proof. exact sel_self_latest. Qed.
+Print Assumptions C12_latest_self_signature.
+
+(* F42: the code as found kept the LAST self-signature in the stream: a key whose newer self-signature
+   stands first (the order in which e.g. Sequoia writes them) showed the superseded usage and expiry *)
+Theorem C12_F42_refuted :
+  (forall l a, sel_self legacy (Some a) l = Some (last l a)) /\
+  sel_self legacy None [f42_new; f42_old] = Some f42_old /\
+  sel_self fixed None [f42_new; f42_old] = Some f42_new.
+Proof. split; [exact sel_self_legacy_last | split; [exact f42_legacy | exact f42_fixed]]. Qed.
+Print Assumptions C12_F42_refuted.
